@@ -2,12 +2,25 @@ package server
 
 // C17 — encrypted streams never store plaintext and always return it.
 //
-// One real server with a master key, one stream with server-side encryption. Values
-// of many sizes carrying a random marker are published and read back through
-// subscriptions; the partition's files must not contain the marker; then single
-// bytes of stored values are flipped in the segment file (with the record checksum
-// recomputed, i.e. tampering rather than bit rot) and the server is restarted with
-// another master key: every such read must end in an error, never in data or a crash.
+// One real server with a master key, one or two encrypted partitions (one stream with one
+// or two partitions, or two streams). Values of many sizes and kinds (recognisable text
+// with a random marker, arbitrary bytes, runs of 0x00 / 0xff, >= 64 KiB) are published
+// through Publish, PublishAsync or as bare NATS messages on the partition's subject and
+// read back through subscriptions (single offsets, and several concurrent subscriptions
+// over the whole partition that are compared after all of them ended); no segment file
+// may contain the plaintext (checked before the first fault and again at the very end);
+// the server is restarted under the same master key and partitions are paused and woken
+// up (new handler, new data key: old and new values must both be readable); single bytes
+// of stored values are flipped in the segment file (with the record checksum recomputed,
+// i.e. tampering rather than bit rot) and the server is restarted with another master key
+// (one byte different, or sharing one half with the first): every such read must end in
+// an error, never in data or a crash. The partition's handler is also called directly on
+// prefixes and extensions of a stored value.
+//
+// In a share of the programs (genC17Cluster) three servers run and the stream has two
+// replicas: the values are read from the follower (ReadISRReplica), the leader is stopped
+// or crashed, the follower takes over (old and new values are returned, every server's
+// copy of the log is scanned for plaintext) and the former leader rejoins as a follower.
 
 import (
 	"bytes"
@@ -16,37 +29,216 @@ import (
 	"hash/crc32"
 	"os"
 	"path/filepath"
+	"runtime"
+	"sort"
 	"strings"
 	"testing"
 	"time"
 
 	client "github.com/liftbridge-io/liftbridge-api/v2/go"
+	"github.com/liftbridge-io/liftbridge/server/encryption"
+	"github.com/nats-io/nats.go"
 
 	"verif.local/simrt"
 	"verif.local/simrt/hx"
 )
 
+// Layout of a stored value (LocalEncryptionHandler.Seal): 1 byte key size, the wrapped
+// 32-byte data key (RFC 5649: 40 bytes), the 12-byte GCM nonce, the ciphertext, the 16-byte tag.
+const (
+	c17Header = 1 + 40 + 12
+	c17Tag    = 16
+)
+
+// routes a value can take into the partition
+const (
+	c17Publish = iota // Publish RPC, concurrent calls
+	c17Async          // one PublishAsync session carrying the whole batch
+	c17RawNATS        // bare NATS messages (no envelope) on the partition's subject
+)
+
+// kinds of values
+const (
+	c17Text   = iota // letters with a 16-byte random marker at the end
+	c17Random        // arbitrary bytes
+	c17Zeros         // 0x00 ...
+	c17Ones          // 0xff ...
+)
+
 func genC17(r *simrt.Rand, tier string, idx int) *hx.Program {
 	p := &hx.Program{P: map[string]int64{}}
-	p.P["sticky"] = 95
 	p.P["seg"] = []int64{200, 1000, 100000}[r.Intn(3)]
 	p.P["server_default"] = int64(r.Intn(3) / 2) // encryption through the server-wide default (1) or the stream option (0)
 	p.P["seed"] = int64(r.Uint64() >> 1)
 	p.P["batchtime_ms"] = []int64{0, 5, 50}[r.Intn(3)]
 	p.P["batchmax"] = []int64{2, 16, 1024}[r.Intn(3)]
 	p.P["sticky"] = []int64{50, 80, 95}[r.Intn(3)]
-	n := 2 + r.Intn(8)
-	for i := 0; i < n; i++ {
-		size := []int64{0, 1, 16, 17, 64, 300, 1024, 4096}[r.Intn(8)]
-		// A[2]: how many further values are published concurrently with this one (same batch window)
-		p.Ops = append(p.Ops, hx.Op{K: "pub", A: []int64{size, int64(r.Uint64() >> 1), int64(r.Intn(4))}})
+	// the two master keys are derived from the seed: 16 or 32 bytes, and the second one differs from the
+	// first in one byte (0), only in its second half (1), only in its first half (2) or everywhere (3)
+	p.P["keylen"] = []int64{16, 32}[r.Intn(2)]
+	p.P["keyrel"] = int64(r.Intn(4))
+	// 0: one stream, one partition; 1: one stream, two partitions; 2: two encrypted streams
+	p.P["layout"] = []int64{0, 0, 0, 1, 2}[r.Intn(5)]
+	if r.Pct(12) {
+		return genC17Cluster(r, p)
 	}
-	ntamper := 1 + r.Intn(3)
-	for i := 0; i < ntamper; i++ {
-		p.Ops = append(p.Ops, hx.Op{K: "tamper", A: []int64{int64(r.Intn(n)), int64(r.Intn(3))}})
+	ntgt := 1
+	if p.P["layout"] != 0 {
+		ntgt = 2
+	}
+	// swarm: what this program draws from
+	routes := []int64{c17Publish}
+	if r.Pct(40) {
+		routes = append(routes, c17Async)
+	}
+	if r.Pct(40) {
+		routes = append(routes, c17RawNATS)
+	}
+	policyAll := r.Pct(50)
+	kinds := []int64{c17Text}
+	if r.Pct(50) {
+		kinds = append(kinds, c17Random)
+	}
+	if r.Pct(30) {
+		kinds = append(kinds, c17Zeros, c17Ones)
+	}
+	large := r.Pct(12)
+	type w struct {
+		k string
+		w int
+	}
+	menu := []w{{"pub", 5}}
+	if r.Pct(80) {
+		menu = append(menu, w{"tamper", 2})
+	}
+	if r.Pct(60) {
+		menu = append(menu, w{"subs", 2})
+	}
+	if r.Pct(40) {
+		menu = append(menu, w{"handler", 2})
+	}
+	if r.Pct(30) {
+		menu = append(menu, w{"restart", 1})
+	}
+	if r.Pct(30) {
+		menu = append(menu, w{"pause", 1})
+	}
+	total := 0
+	for _, m := range menu {
+		total += m.w
+	}
+	npub := 0
+	one := func(kind string) hx.Op {
+		switch kind {
+		case "pub":
+			size := []int64{0, 1, 16, 17, 64, 300, 1024, 4096}[r.Intn(8)]
+			if large && r.Pct(15) {
+				size = []int64{65536, 70001}[r.Intn(2)]
+			}
+			policy := int64(0)
+			if policyAll && r.Pct(50) {
+				policy = 1
+			}
+			npub++
+			// A[2]: how many further values are published concurrently with this one (same batch window)
+			return hx.Op{K: "pub", A: []int64{size, int64(r.Uint64() >> 1), int64(r.Intn(4)), routes[r.Intn(len(routes))], kinds[r.Intn(len(kinds))], int64(r.Intn(ntgt)), policy}}
+		case "tamper":
+			return hx.Op{K: "tamper", A: []int64{int64(r.Intn(64)), int64(r.Intn(4)), int64(r.Uint64() >> 1)}}
+		case "subs":
+			return hx.Op{K: "subs", A: []int64{int64(2 + r.Intn(3)), int64(r.Intn(ntgt))}}
+		case "handler":
+			return hx.Op{K: "handler", A: []int64{int64(r.Intn(64)), int64(r.Uint64() >> 1)}}
+		case "pause":
+			return hx.Op{K: "pause", A: []int64{int64(r.Intn(ntgt)), int64(r.Intn(2)), int64(r.Uint64() >> 1)}}
+		}
+		return hx.Op{K: kind}
+	}
+	draw := func() string {
+		x := r.Intn(total)
+		for _, m := range menu {
+			if x < m.w {
+				return m.k
+			}
+			x -= m.w
+		}
+		return "pub"
+	}
+	n := 4 + r.Intn(10)
+	heavy := 0 // restarts and pauses are the expensive operations
+	p.Ops = append(p.Ops, one("pub"))
+	for i := 1; i < n; i++ {
+		k := draw()
+		if k == "restart" || k == "pause" {
+			if heavy >= 2 {
+				k = "pub"
+			} else {
+				heavy++
+			}
+		}
+		p.Ops = append(p.Ops, one(k))
+	}
+	if npub < 2 {
+		p.Ops = append(p.Ops, one("pub"))
 	}
 	if r.Pct(50) {
+		// restart under the other master key; in a share of the programs work goes on afterwards
+		// (new values under the new key, old ones unreadable) and the first key comes back
 		p.Ops = append(p.Ops, hx.Op{K: "wrongkey"})
+		if r.Pct(30) {
+			for i, m := 0, 1+r.Intn(3); i < m; i++ {
+				p.Ops = append(p.Ops, one([]string{"pub", "subs", "tamper", "handler"}[r.Intn(4)]))
+			}
+			if r.Pct(50) {
+				p.Ops = append(p.Ops, hx.Op{K: "wrongkey"}, one([]string{"pub", "subs"}[r.Intn(2)]))
+			}
+		}
+	}
+	return p
+}
+
+// genC17Cluster: the variant with three servers and a stream of replication factor 2, so that one
+// server holds the partition as a follower from the beginning: values are read from the follower,
+// the leader is stopped or crashed, the follower takes over and the old leader comes back as follower.
+func genC17Cluster(r *simrt.Rand, p *hx.Program) *hx.Program {
+	p.P["cluster"] = 1
+	p.P["layout"] = 0
+	// (a full active segment makes leader and follower exchange fetches without pause until the next append
+	// rolls it - thousands of steps per simulated instant: the segments of this variant never fill up)
+	p.P["seg"] = 1 << 20
+	async := r.Pct(40)
+	pub := func() hx.Op {
+		size := []int64{0, 1, 16, 17, 64, 300, 1024}[r.Intn(7)]
+		route := int64(c17Publish)
+		if async && r.Pct(50) {
+			route = c17Async
+		}
+		// (ack policy ALL: what was acknowledged is on the follower, so it survives the leader)
+		return hx.Op{K: "pub", A: []int64{size, int64(r.Uint64() >> 1), int64(r.Intn(3)), route, []int64{c17Text, c17Text, c17Random, c17Zeros}[r.Intn(4)], 0, 1}}
+	}
+	mix := func(n int) {
+		for i := 0; i < n; i++ {
+			switch r.Intn(4) {
+			case 0, 1:
+				p.Ops = append(p.Ops, pub())
+			case 2:
+				p.Ops = append(p.Ops, hx.Op{K: "fsub"})
+			default:
+				p.Ops = append(p.Ops, hx.Op{K: "subs", A: []int64{int64(1 + r.Intn(2)), 0}})
+			}
+		}
+	}
+	p.Ops = append(p.Ops, pub())
+	mix(1 + r.Intn(3))
+	p.Ops = append(p.Ops, hx.Op{K: "fsub"})
+	if r.Pct(80) {
+		p.Ops = append(p.Ops, hx.Op{K: "failover", A: []int64{int64(r.Intn(2))}}, pub())
+		mix(r.Intn(3))
+		if r.Pct(50) {
+			p.Ops = append(p.Ops, hx.Op{K: "rejoin"}, hx.Op{K: "fsub"})
+			if r.Pct(30) {
+				p.Ops = append(p.Ops, hx.Op{K: "failover", A: []int64{int64(r.Intn(2))}}, pub())
+			}
+		}
 	}
 	return p
 }
@@ -82,28 +274,346 @@ func valueSpan(data []byte, offset int64) (start, end, msgStart, msgEnd int, ok 
 	return
 }
 
-func execC17(t *testing.T, prog *hx.Program, dec *simrt.Decider, verbose bool) *hx.Outcome {
-	tampered, wrongKeyReads, published := 0, 0, 0
-	oc := runH3(t, prog, dec, verbose, 1, func(h *h3) {
-		os.Setenv("LIFTBRIDGE_ENCRYPTION_KEY", "0123456789abcdef0123456789abcdef")
-		defer os.Unsetenv("LIFTBRIDGE_ENCRYPTION_KEY")
-		h.cfgHook = func(n *simNode, c *Config) {
-			c.BatchMaxMessages = int(prog.Param("batchmax", 1024))
-			c.BatchMaxTime = time.Duration(prog.Param("batchtime_ms", 0)) * time.Millisecond
-			// encryption asked for by the server-wide default (streams.encryption) instead of the stream's own option
-			c.Streams.Encryption = prog.Param("server_default", 0) == 1
+// c17Keys derives the two master keys of a program from its seed. Every byte is in 1..255 (the
+// environment cannot carry NUL); the server uses the variable's bytes as they are.
+func c17Keys(prog *hx.Program) [2][]byte {
+	r := simrt.NewRand(uint64(prog.Param("seed", 1)) ^ 0xc17c17)
+	klen := 32
+	if prog.Param("keylen", 32) == 16 {
+		klen = 16
+	}
+	anyByte := func() byte { return byte(1 + r.Intn(255)) }
+	other := func(b byte) byte { return byte(1 + (int(b)-1+1+r.Intn(254))%255) } // in 1..255 and != b
+	k0 := make([]byte, klen)
+	for i := range k0 {
+		k0[i] = anyByte()
+	}
+	k1 := append([]byte(nil), k0...)
+	lo, hi := 0, klen
+	switch prog.Param("keyrel", 3) {
+	case 0:
+		lo = r.Intn(klen)
+		hi = lo + 1
+	case 1: // same first 16 bytes
+		lo = 16
+	case 2: // same last 16 bytes
+		hi = klen - 16
+	}
+	if lo >= hi { // a 16-byte key has no other half: one byte at that end differs
+		if lo >= klen {
+			lo = klen - 1
 		}
-		n := h.single()
-		if n == nil {
+		hi = lo + 1
+	}
+	for i := lo; i < hi; i++ {
+		k1[i] = anyByte()
+	}
+	if bytes.Equal(k0, k1) {
+		k1[lo] = other(k0[lo])
+	}
+	return [2][]byte{k0, k1}
+}
+
+type c17Target struct {
+	stream string
+	part   int32
+}
+
+func (t c17Target) String() string { return fmt.Sprintf("%s/%d", t.stream, t.part) }
+func (t c17Target) subject() string {
+	if t.part > 0 {
+		return fmt.Sprintf("%s.%d", t.stream, t.part)
+	}
+	return t.stream
+}
+
+type c17Pub struct {
+	tgt     int
+	off     int64
+	val     []byte
+	needles [][]byte // byte strings of the plaintext that no segment file may contain
+	key     int      // which master key was in force when it was sealed
+	err     error
+	cid     string
+}
+
+// c17Spy stands in front of a partition's encryption handler and delegates every call; it records
+// from which call site of the message processing loop Seal was called.
+type c17Spy struct {
+	encryption.Codec
+	sites map[int]int // line of the call site -> calls
+	file  *string
+}
+
+func (s *c17Spy) Seal(b []byte) ([]byte, error) {
+	if _, file, line, ok := runtime.Caller(1); ok {
+		s.sites[line]++
+		*s.file = file
+	}
+	return s.Codec.Seal(b)
+}
+
+// c17SealLines: the lines of the Seal call sites in the partition.go this binary was built from (the
+// instrumented copy lies next to the test binary; the runtime names the original path), found once
+// per process. When they cannot be found the counters carry the line instead of the ordinal.
+var c17SealLines map[string][]int
+
+func c17SiteName(file string, line int) string {
+	if c17SealLines == nil {
+		c17SealLines = map[string][]int{}
+		for _, f := range []string{filepath.Join(filepath.Dir(os.Args[0]), "src", "server", "partition.go"), file} {
+			var lines []int
+			if b, err := os.ReadFile(f); err == nil {
+				for i, l := range strings.Split(string(b), "\n") {
+					if strings.Contains(l, "encryptionHandler.Seal(") {
+						lines = append(lines, i+1)
+					}
+				}
+			}
+			c17SealLines[f] = lines
+		}
+	}
+	names := []string{"1_first_of_batch", "2_already_waiting", "3_arrived_in_batch_window"}
+	for _, f := range []string{filepath.Join(filepath.Dir(os.Args[0]), "src", "server", "partition.go"), file} {
+		if lines := c17SealLines[f]; len(lines) == len(names) {
+			for i, l := range lines {
+				if l == line {
+					return names[i]
+				}
+			}
+		}
+	}
+	return fmt.Sprintf("line_%d", line)
+}
+
+type c17Run struct {
+	h       *h3
+	prog    *hx.Program
+	n       *simNode
+	verbose bool
+	keys    [2][]byte
+	cur     int // master key in force
+	tgts    []c17Target
+	pubs    []*c17Pub
+	foreign *nats.Conn
+	cnt     map[string]int
+	sites   map[int]int
+	file    string
+	deks    map[string]bool // distinct wrapped data keys seen in stored values
+	dirty   bool            // values were published since the last plaintext scan
+	seq     int
+	gaveUp  bool // cluster variant: a failover did not complete (not this property's business): the program ends early
+}
+
+func execC17(t *testing.T, prog *hx.Program, dec *simrt.Decider, verbose bool) *hx.Outcome {
+	c := &c17Run{prog: prog, verbose: verbose, cnt: map[string]int{}, sites: map[int]int{}, deks: map[string]bool{}}
+	nservers := 1
+	if prog.Param("cluster", 0) == 1 {
+		nservers = 3
+	}
+	oc := runH3(t, prog, dec, verbose, nservers, func(h *h3) {
+		c.h = h
+		if nservers > 1 {
+			c.clusterBody()
+		} else {
+			c.body()
+		}
+	})
+	cnt := c.cnt
+	oc.Nontrivial = cnt["probe.values_published_and_read_back"] >= 2 && (cnt["fault.stored_byte_flips"] >= 10 || cnt["fault.reads_under_wrong_master_key"] >= 1 ||
+		cnt["probe.concurrent_subscriptions"] >= 2 || cnt["probe.handler_reads_of_prefixes_and_extensions"] >= 10 || cnt["fault.restarts_same_master_key"] >= 1 || cnt["fault.pauses"] >= 1 ||
+		cnt["probe.values_read_from_follower"] >= 1 || cnt["fault.partition_leader_failovers"] >= 1)
+	if oc.Counters == nil {
+		oc.Counters = map[string]int{}
+	}
+	for _, k := range []string{"probe.values_published_and_read_back", "fault.stored_byte_flips", "fault.reads_under_wrong_master_key"} {
+		oc.Counters[k] += 0 // always reported
+	}
+	for k, v := range cnt {
+		oc.Counters[k] += v
+	}
+	for line, v := range c.sites {
+		oc.Counters["probe.sealed_at_site_"+c17SiteName(c.file, line)] += v
+	}
+	if len(c.deks) > 0 {
+		oc.Counters["probe.distinct_data_keys_in_stored_values"] = len(c.deks)
+	}
+	// a crash of the server shows up as a recorded panic: make its signature specific
+	for i, v := range oc.Viol {
+		if strings.HasPrefix(v.Sig, "panic:") {
+			oc.Viol[i].Clause = "C17/crash"
+		}
+	}
+	return oc
+}
+
+func (c *c17Run) setKey(i int) {
+	c.cur = i
+	os.Setenv("LIFTBRIDGE_ENCRYPTION_KEY", string(c.keys[i]))
+}
+
+func (c *c17Run) partition(t c17Target) *partition {
+	return c.n.srv.metadata.GetPartition(t.stream, t.part)
+}
+
+func (c *c17Run) partDir(t c17Target) string {
+	return filepath.Join(c.n.dir, "streams", t.stream, fmt.Sprint(t.part))
+}
+
+// spy puts the recording wrapper in front of every partition's handler (partitions are replaced by
+// restarts and by resuming, so this is repeated; values sealed before it are simply not counted).
+func (c *c17Run) spy() {
+	for _, t := range c.tgts {
+		p := c.partition(t)
+		if p == nil || p.encryptionHandler == nil {
+			continue
+		}
+		if _, ok := p.encryptionHandler.(*c17Spy); !ok {
+			p.encryptionHandler = &c17Spy{Codec: p.encryptionHandler, sites: c.sites, file: &c.file}
+		}
+	}
+}
+
+// waitCommitted: a LEADER-policy ack may arrive before the high watermark covers the message; a
+// subscription that starts above the HW is served from HW+1 (documented), so wait until the message
+// is committed.
+func (c *c17Run) waitCommitted(t c17Target, off int64) {
+	for k := 0; k < 2000; k++ {
+		if p := c.partition(t); p != nil && !p.IsPaused() && p.log.HighWatermark() >= off {
 			return
+		}
+		simrt.Sleep(time.Millisecond)
+	}
+}
+
+// read subscribes to the offsets from..to of a partition and waits for the end of the subscription.
+func (c *c17Run) read(t c17Target, from, to int64) (*subStream, bool) {
+	c.waitCommitted(t, to)
+	ctx, cancel := ctxT(10 * time.Second)
+	defer cancel()
+	st := c.h.subscribe(c.n, ctx, &client.SubscribeRequest{Stream: t.stream, Partition: t.part, StartPosition: client.StartPosition_OFFSET, StartOffset: from, StopPosition: client.StopPosition_STOP_OFFSET, StopOffset: to})
+	ok := c.h.waitFor("read", 5*time.Second, func() bool { return st.ended })
+	return st, ok
+}
+
+func c17Got(st *subStream) string {
+	if len(st.msgs) > 0 {
+		return fmt.Sprintf("%d bytes %q…", len(st.msgs[0].Value), trunc(st.msgs[0].Value, 24))
+	}
+	return "nothing"
+}
+
+// value builds one value of the given size and kind, and the byte strings by which its plaintext
+// would be recognised in a file.
+func c17Value(r *simrt.Rand, size int, kind int64, raw bool) ([]byte, [][]byte) {
+	val := make([]byte, size)
+	var needles [][]byte
+	switch kind {
+	case c17Random:
+		for j := 0; j < size; j += 8 {
+			var w [8]byte
+			binary.LittleEndian.PutUint64(w[:], r.Uint64())
+			copy(val[j:], w[:])
+		}
+		if raw && size > 0 && val[0] == 'L' { // a bare NATS message must not look like a publish envelope ("LIFT")
+			val[0] = 'M'
+		}
+		if size >= 8 {
+			needles = append(needles, val[:8])
+		}
+		if size >= 24 {
+			needles = append(needles, val[size-16:])
+		}
+	case c17Zeros, c17Ones:
+		b := byte(0x00)
+		if kind == c17Ones {
+			b = 0xff
+		}
+		for j := range val {
+			val[j] = b
+		}
+		if size >= 32 { // (record headers contain shorter runs of both bytes)
+			needles = append(needles, val[:32])
+		}
+	default:
+		for j := range val {
+			val[j] = byte('a' + r.Intn(26)) // compressible, recognisable plaintext
+		}
+		if size >= 16 {
+			marker := []byte(fmt.Sprintf("MARK%012d", r.Uint64()%1000000000000))
+			copy(val[size-16:], marker)
+			needles = append(needles, marker)
+		}
+		if size >= 8 {
+			needles = append(needles, val[:8])
+		}
+	}
+	return val, needles
+}
+
+func (c *c17Run) restart(why string) bool {
+	h, n := c.h, c.n
+	h.stopNode(0)
+	if err := h.startNode(0); err != nil {
+		h.oc.Trouble = "restart (" + why + "): " + err.Error()
+		return false
+	}
+	if h.waitController(60*time.Second) == nil {
+		h.oc.Trouble = "no controller after restart (" + why + ")"
+		return false
+	}
+	if !h.pollFor("partitions", 10*time.Second, func() bool {
+		for _, t := range c.tgts {
+			if p := n.srv.metadata.GetPartition(t.stream, t.part); p == nil || !p.IsLeader() {
+				return false
+			}
+		}
+		return true
+	}) {
+		h.oc.Trouble = "a partition has no leader 10 s after the restart (" + why + ")"
+		return false
+	}
+	c.spy()
+	return true
+}
+
+func (c *c17Run) body() {
+	h, prog := c.h, c.prog
+	c.keys = c17Keys(prog)
+	c.setKey(0)
+	defer os.Unsetenv("LIFTBRIDGE_ENCRYPTION_KEY")
+	h.cfgHook = func(n *simNode, cfg *Config) {
+		cfg.BatchMaxMessages = int(prog.Param("batchmax", 1024))
+		cfg.BatchMaxTime = time.Duration(prog.Param("batchtime_ms", 0)) * time.Millisecond
+		// encryption asked for by the server-wide default (streams.encryption) instead of the stream's own option
+		cfg.Streams.Encryption = prog.Param("server_default", 0) == 1
+	}
+	c.n = h.single()
+	if c.n == nil {
+		return
+	}
+	n := c.n
+	c.tgts = []c17Target{{"enc", 0}}
+	switch prog.Param("layout", 0) {
+	case 1:
+		c.tgts = append(c.tgts, c17Target{"enc", 1})
+	case 2:
+		c.tgts = append(c.tgts, c17Target{"enc2", 0})
+	}
+	for i, t := range c.tgts {
+		if t.part > 0 {
+			continue
 		}
 		var cerr error
 		h.rpc(n, "create", func(api *apiServer) {
 			ctx, cancel := ctxT(10 * time.Second)
 			defer cancel()
-			req := &client.CreateStreamRequest{Name: "enc", Subject: "enc", Partitions: 1, ReplicationFactor: 1,
+			req := &client.CreateStreamRequest{Name: t.stream, Subject: t.stream, Partitions: 1, ReplicationFactor: 1,
 				Encryption: nb(true), SegmentMaxBytes: &client.NullableInt64{Value: prog.Param("seg", 1000)}}
-			if prog.Param("server_default", 0) == 1 {
+			if prog.Param("layout", 0) == 1 {
+				req.Partitions = 2
+			}
+			if prog.Param("server_default", 0) == 1 && i == 0 {
 				req.Encryption = nil
 			}
 			_, cerr = api.CreateStream(ctx, req)
@@ -112,229 +622,874 @@ func execC17(t *testing.T, prog *hx.Program, dec *simrt.Decider, verbose bool) *
 			h.oc.Trouble = "create stream: " + cerr.Error()
 			return
 		}
-		type pubd struct {
-			off    int64
-			val    []byte
-			marker []byte
+	}
+	c.spy()
+	for i, op := range prog.Ops {
+		if h.stop || h.oc.Trouble != "" {
+			break
 		}
-		var pubs []pubd
-		read := func(node *simNode, off int64) (*subStream, bool) {
-			// a LEADER-policy ack may arrive before the high watermark covers the message; a subscription that
-			// starts above the HW is served from HW+1 (documented), so wait until the message is committed
-			for k := 0; k < 2000; k++ {
-				if p := node.srv.metadata.GetPartition("enc", 0); p != nil && !p.IsPaused() && p.log.HighWatermark() >= off {
-					break
-				}
-				simrt.Sleep(time.Millisecond)
-			}
-			ctx, cancel := ctxT(10 * time.Second)
-			defer cancel()
-			st := h.subscribe(node, ctx, &client.SubscribeRequest{Stream: "enc", StartPosition: client.StartPosition_OFFSET, StartOffset: off, StopPosition: client.StopPosition_STOP_OFFSET, StopOffset: off})
-			ok := h.waitFor("read", 5*time.Second, func() bool { return st.ended })
-			return st, ok
+		if c.verbose {
+			h.s.Logf("op %d: %s", i, op)
 		}
-		partDir := func() string { return filepath.Join(n.dir, "streams", "enc", "0") }
-		for i, op := range prog.Ops {
-			if h.stop || h.oc.Trouble != "" {
-				break
+		switch op.K {
+		case "pub":
+			c.publish(op)
+		case "subs":
+			c.concurrentSubs(int(op.Arg(1, 0)), int(op.Arg(0, 2)))
+		case "handler":
+			c.handlerProbe(op)
+		case "restart":
+			c.scan(false)
+			if !c.restart("same key") {
+				return
 			}
-			switch op.K {
-			case "pub":
-				r := simrt.NewRand(uint64(op.Arg(1, 1)))
-				// one value of the requested size plus A[2] companions published at the same time, so that
-				// several messages are sealed for one batch
-				type one struct {
-					val, marker []byte
-					off         int64
-					err         error
-				}
-				var batch []*one
-				for k := 0; k <= int(op.Arg(2, 0)); k++ {
-					size := int(op.Arg(0, 0))
-					if k > 0 {
-						size = []int{0, 16, 40, 300, 1500}[r.Intn(5)]
-					}
-					val := make([]byte, size)
-					for j := range val {
-						val[j] = byte('a' + r.Intn(26)) // compressible, recognisable plaintext
-					}
-					var marker []byte
-					if size >= 16 {
-						marker = []byte(fmt.Sprintf("MARK%012d", r.Uint64()%1000000000000))
-						copy(val[size-16:], marker)
-					}
-					batch = append(batch, &one{val: val, marker: marker, off: -1})
-				}
-				pending := len(batch)
-				for k, b := range batch {
-					b := b
-					h.s.GoNode(400+k, "publisher", func() {
-						defer func() { pending-- }()
-						var resp *client.PublishResponse
-						h.rpc(n, "publish", func(api *apiServer) {
-							ctx, cancel := ctxT(5 * time.Second)
-							defer cancel()
-							resp, b.err = api.Publish(ctx, &client.PublishRequest{Stream: "enc", Value: b.val, AckPolicy: client.AckPolicy_LEADER})
-						})
-						if b.err == nil && resp != nil && resp.Ack != nil {
-							b.off = resp.Ack.Offset
-						} else if b.err == nil {
-							b.err = fmt.Errorf("no ack")
-						}
-					})
-				}
-				simrt.WaitUntil("publishers", func() bool { return pending == 0 })
-				if verbose {
-					for _, b := range batch {
-						h.s.Logf("  published %d bytes -> offset %d err=%v", len(b.val), b.off, b.err)
-					}
-				}
-				for _, b := range batch {
-					if b.err != nil {
-						h.oc.Trouble = fmt.Sprintf("publish: %v", b.err)
-						return
-					}
-					pubs = append(pubs, pubd{b.off, b.val, b.marker})
-					published++
-				}
-				// what a subscriber gets is exactly what was published
-				for _, b := range batch {
-					st, ended := read(n, b.off)
-					h.oc.Checks++
-					if !ended || len(st.msgs) != 1 || !bytes.Equal(st.msgs[0].Value, b.val) {
-						got := "nothing"
-						if len(st.msgs) > 0 {
-							got = fmt.Sprintf("%d bytes %q…", len(st.msgs[0].Value), trunc(st.msgs[0].Value, 24))
-						}
-						h.fail("C17/roundtrip", "C17/roundtrip", "published %d bytes at offset %d (one of %d concurrent publishes), a subscriber received %s (ended=%v err=%v)", len(b.val), b.off, len(batch), got, st.ended, st.err)
-						break
-					}
-				}
-			case "tamper", "wrongkey":
-				if i > 0 && prog.Ops[i-1].K == "pub" {
-					// first: nothing stored may contain a plaintext marker
-					simrt.Sleep(50 * time.Millisecond)
-					files, _ := filepath.Glob(filepath.Join(partDir(), "*.log"))
-					h.oc.Checks++
-					if len(files) == 0 {
-						h.oc.Trouble = "no segment files under " + partDir()
-						return
-					}
-					for _, f := range files {
-						data, _ := os.ReadFile(f)
-						for _, p := range pubs {
-							if p.marker != nil && bytes.Contains(data, p.marker) {
-								h.fail("C17/plaintext", "C17/plaintext-on-disk", "segment file %s contains the plaintext marker %q of the value published at offset %d", filepath.Base(f), p.marker, p.off)
-							}
-							if len(p.val) >= 8 && bytes.Contains(data, p.val[:8]) {
-								h.fail("C17/plaintext", "C17/plaintext-on-disk", "segment file %s contains the first bytes of the plaintext published at offset %d", filepath.Base(f), p.off)
-							}
-						}
-					}
-				}
-				if op.K == "wrongkey" {
-					// restart with another master key: every stored value must now yield an error
-					h.stopNode(0)
-					os.Setenv("LIFTBRIDGE_ENCRYPTION_KEY", "fedcba9876543210fedcba9876543210")
-					if err := h.startNode(0); err != nil {
-						h.oc.Trouble = "restart: " + err.Error()
-						return
-					}
-					if h.waitController(60*time.Second) == nil {
-						h.oc.Trouble = "no controller after restart"
-						return
-					}
-					h.pollFor("partition", 10*time.Second, func() bool {
-						p := n.srv.metadata.GetPartition("enc", 0)
-						return p != nil && p.IsLeader()
-					})
-					for _, p := range pubs {
-						st, ended := read(n, p.off)
-						h.oc.Checks++
-						wrongKeyReads++
-						if len(st.msgs) > 0 {
-							h.fail("C17/wrong-key", "C17/wrong-key/data", "offset %d was sealed under another master key but a subscriber received %d bytes (%q…) instead of an error", p.off, len(st.msgs[0].Value), trunc(st.msgs[0].Value, 24))
-						} else if !ended || st.err == nil {
-							h.fail("C17/wrong-key", "C17/wrong-key/no-error", "offset %d was sealed under another master key; the subscription neither delivered nor failed (ended=%v err=%v)", p.off, st.ended, st.err)
-						}
-						if h.stop {
-							break
-						}
-					}
-					continue
-				}
-				// ---- tamper with every byte of one stored value
-				if len(pubs) == 0 {
-					continue
-				}
-				target := pubs[int(op.Arg(0, 0))%len(pubs)]
-				mask := []byte{0x01, 0x80, 0xff}[op.Arg(1, 0)%3]
-				files, _ := filepath.Glob(filepath.Join(partDir(), "*.log"))
-				done := false
-				for _, f := range files {
-					data, err := os.ReadFile(f)
-					if err != nil {
-						continue
-					}
-					vs, ve, ms, me, ok := valueSpan(data, target.off)
-					if !ok {
-						continue
-					}
-					done = true
-					fh, err := os.OpenFile(f, os.O_RDWR, 0)
-					if err != nil {
-						h.oc.Trouble = err.Error()
-						return
-					}
-					for pos := vs; pos < ve && !h.stop; pos++ {
-						rec := append([]byte{}, data[ms:me]...)
-						rec[pos-ms] ^= mask
-						binary.BigEndian.PutUint32(rec, crc32.Checksum(rec[4:], castagnoliC17))
-						fh.WriteAt(rec, int64(ms))
-						st, ended := read(n, target.off)
-						h.oc.Checks++
-						tampered++
-						if len(h.s.Panics) > 0 || !n.up || h.s.Crashed(n.node) {
-							h.fail("C17/tamper", "C17/tamper/crash", "byte %d of the %d-byte stored value at offset %d was changed (mask %#x) and the server crashed: %s", pos-vs, ve-vs, target.off, mask, firstPanic(h))
-							break
-						}
-						if len(st.msgs) > 0 {
-							sig := "C17/tamper/data"
-							if bytes.Equal(st.msgs[0].Value, target.val) {
-								sig = "C17/tamper/undetected"
-							}
-							h.fail("C17/tamper", sig, "byte %d of the %d-byte stored value at offset %d was changed (mask %#x) and a subscriber received %d bytes instead of an error", pos-vs, ve-vs, target.off, mask, len(st.msgs[0].Value))
-						} else if !ended || st.err == nil {
-							h.fail("C17/tamper", "C17/tamper/no-error", "byte %d of the stored value at offset %d was changed; the subscription neither delivered nor failed (ended=%v)", pos-vs, target.off, st.ended)
-						}
-						fh.WriteAt(data[ms:me], int64(ms)) // restore
-					}
-					fh.Close()
-				}
-				if !done {
-					h.oc.Trouble = fmt.Sprintf("record %d not found in the segment files", target.off)
-					return
-				}
+			c.cnt["fault.restarts_same_master_key"]++
+			// what was stored before is still returned
+			for ti := range c.tgts {
+				c.concurrentSubs(ti, 1)
 			}
+		case "pause":
+			c.pause(op)
+		case "wrongkey":
+			c.scan(false)
+			c.wrongKey()
+		case "tamper":
+			c.scan(false)
+			c.tamper(op)
 		}
+	}
+	if h.stop || h.oc.Trouble != "" {
 		if !h.stop {
 			h.stopNode(0)
 		}
-	})
-	oc.Nontrivial = published >= 2 && (tampered >= 10 || wrongKeyReads >= 1)
-	if oc.Counters == nil {
-		oc.Counters = map[string]int{}
+		return
 	}
-	oc.Counters["probe.values_published_and_read_back"] = published
-	oc.Counters["fault.stored_byte_flips"] = tampered
-	oc.Counters["fault.reads_under_wrong_master_key"] = wrongKeyReads
-	// a crash of the server shows up as a recorded panic: make its signature specific
-	for i, v := range oc.Viol {
-		if strings.HasPrefix(v.Sig, "panic:") {
-			oc.Viol[i].Clause = "C17/crash"
+	h.stopNode(0)
+	// whatever the program did: at the end nothing stored contains a published value in clear
+	c.scan(true)
+}
+
+// clusterBody: three servers, one encrypted stream with two replicas. c.n is the server that leads
+// the partition; everything that is published is acknowledged under policy ALL.
+func (c *c17Run) clusterBody() {
+	h, prog := c.h, c.prog
+	c.keys = c17Keys(prog)
+	c.setKey(0)
+	defer os.Unsetenv("LIFTBRIDGE_ENCRYPTION_KEY")
+	h.cfgHook = func(n *simNode, cfg *Config) {
+		cfg.BatchMaxMessages = int(prog.Param("batchmax", 1024))
+		cfg.BatchMaxTime = time.Duration(prog.Param("batchtime_ms", 0)) * time.Millisecond
+		cfg.Streams.Encryption = prog.Param("server_default", 0) == 1
+		cfg.Clustering.ReplicaMaxLagTime = 2500 * time.Millisecond
+		cfg.Clustering.ReplicaMaxLeaderTimeout = 1500 * time.Millisecond
+		cfg.Clustering.ReplicaMaxIdleWait = 2 * time.Second
+		cfg.Clustering.ReplicaFetchTimeout = 300 * time.Millisecond
+	}
+	for i := range h.nodes {
+		if err := h.startNode(i); err != nil {
+			h.oc.Trouble = "start: " + err.Error()
+			return
 		}
 	}
-	return oc
+	ctl := h.waitController(60 * time.Second)
+	if ctl == nil {
+		h.oc.Trouble = "no metadata leader within 60 simulated seconds"
+		return
+	}
+	t := c17Target{"enc", 0}
+	c.tgts = []c17Target{t}
+	var cerr error
+	h.rpc(ctl, "create", func(api *apiServer) {
+		ctx, cancel := ctxT(30 * time.Second)
+		defer cancel()
+		req := &client.CreateStreamRequest{Name: t.stream, Subject: t.stream, Partitions: 1, ReplicationFactor: 2,
+			Encryption: nb(true), SegmentMaxBytes: &client.NullableInt64{Value: prog.Param("seg", 1000)}}
+		if prog.Param("server_default", 0) == 1 {
+			req.Encryption = nil
+		}
+		_, cerr = api.CreateStream(ctx, req)
+	})
+	if cerr != nil {
+		h.oc.Trouble = "create stream: " + cerr.Error()
+		return
+	}
+	if !h.pollFor("partition-leader", 30*time.Second, func() bool {
+		for _, x := range h.nodes {
+			if p := x.srv.metadata.GetPartition(t.stream, t.part); x.up && p != nil && p.IsLeader() {
+				c.n = x
+			}
+		}
+		return c.n != nil && c.follower() != nil
+	}) {
+		h.oc.Trouble = "the partition has no leader with an in-sync follower 30 s after its creation"
+		return
+	}
+	c.spy()
+	for i, op := range prog.Ops {
+		if h.stop || h.oc.Trouble != "" || c.gaveUp {
+			break
+		}
+		if c.verbose {
+			h.s.Logf("op %d: %s (leader %s)", i, op, c.n.id)
+		}
+		switch op.K {
+		case "pub":
+			c.publish(op)
+		case "subs":
+			c.concurrentSubs(0, int(op.Arg(0, 1)))
+		case "fsub":
+			c.followerSub()
+		case "failover":
+			c.scan(false)
+			c.failover(op)
+		case "rejoin":
+			c.rejoin()
+		}
+	}
+	for _, x := range h.nodes {
+		if x.up && !h.stop {
+			h.stopNode(x.idx)
+		}
+	}
+	if h.stop || h.oc.Trouble != "" {
+		return
+	}
+	// no server's copy contains a published value in clear
+	c.scan(true)
+}
+
+// follower returns a running server that follows c.n for the partition and is in sync.
+func (c *c17Run) follower() *simNode {
+	t := c.tgts[0]
+	lp := c.partition(t)
+	if lp == nil {
+		return nil
+	}
+	for _, x := range c.h.nodes {
+		if x == c.n || !x.up {
+			continue
+		}
+		if p := x.srv.metadata.GetPartition(t.stream, t.part); p != nil && p.isFollowing && lp.inISR(x.id) {
+			return x
+		}
+	}
+	return nil
+}
+
+// followerSub: a subscription served by the follower (ReadISRReplica) delivers the published values.
+func (c *c17Run) followerSub() {
+	h := c.h
+	t := c.tgts[0]
+	exp := c.expected(0)
+	f := c.follower()
+	if len(exp) == 0 {
+		return
+	}
+	if f == nil {
+		c.cnt["probe.no_in_sync_follower_to_read_from"]++
+		return
+	}
+	last := exp[len(exp)-1].off
+	// the follower learns the high watermark with its next fetch
+	if !h.pollFor("follower-hw", 15*time.Second, func() bool {
+		p := f.srv.metadata.GetPartition(t.stream, t.part)
+		return p != nil && p.log.HighWatermark() >= last
+	}) {
+		c.cnt["probe.follower_behind_not_read"]++
+		return
+	}
+	ctx, cancel := ctxT(10 * time.Second)
+	defer cancel()
+	st := h.subscribe(f, ctx, &client.SubscribeRequest{Stream: t.stream, Partition: t.part, StartPosition: client.StartPosition_EARLIEST, StopPosition: client.StopPosition_STOP_OFFSET, StopOffset: last, ReadISRReplica: true})
+	ended := h.waitFor("follower-read", 8*time.Second, func() bool { return st.ended })
+	h.oc.Checks++
+	for i, m := range st.msgs {
+		if i >= len(exp) || m.Offset != exp[i].off || !bytes.Equal(m.Value, exp[i].val) {
+			want := "nothing more"
+			if i < len(exp) {
+				want = fmt.Sprintf("offset %d with %d bytes (%q…)", exp[i].off, len(exp[i].val), trunc(exp[i].val, 24))
+			}
+			h.fail("C17/roundtrip", "C17/roundtrip/follower", "a subscription served by the follower %s (the leader is %s): message %d has offset %d and %d bytes (%q…), published was %s", f.id, c.n.id, i, m.Offset, len(m.Value), trunc(m.Value, 24), want)
+			return
+		}
+	}
+	if !ended || len(st.msgs) != len(exp) {
+		h.fail("C17/roundtrip", "C17/roundtrip/follower", "a subscription served by the follower %s (the leader is %s) delivered %d of %d messages (ended=%v err=%v)", f.id, c.n.id, len(st.msgs), len(exp), st.ended, st.err)
+		return
+	}
+	c.cnt["probe.values_read_from_follower"] += len(exp)
+}
+
+// failover stops or crashes the partition leader and waits until the follower leads: what was
+// stored before is returned by the new leader, which seals what is published from now on.
+func (c *c17Run) failover(op hx.Op) {
+	h := c.h
+	t := c.tgts[0]
+	old, f := c.n, c.follower()
+	if f == nil {
+		c.cnt["probe.no_in_sync_follower_to_fail_over_to"]++
+		return
+	}
+	if op.Arg(0, 0)%2 == 0 {
+		h.stopNode(old.idx)
+	} else {
+		h.crashNode(old.idx)
+	}
+	giveUp := func(why string) {
+		c.cnt["probe.failover_not_completed_"+why]++
+		c.gaveUp = true
+	}
+	if h.waitController(60*time.Second) == nil {
+		giveUp("no_controller")
+		return
+	}
+	if !h.pollFor("new-leader", 40*time.Second, func() bool {
+		p := f.srv.metadata.GetPartition(t.stream, t.part)
+		return p != nil && p.IsLeader()
+	}) {
+		giveUp("follower_not_elected")
+		return
+	}
+	c.n = f
+	// the dead server leaves the in-sync set after the lag time; until then nothing is committed
+	if !h.pollFor("isr-shrink", 40*time.Second, func() bool {
+		p := c.partition(t)
+		return p != nil && !p.inISR(old.id)
+	}) {
+		giveUp("old_leader_still_in_sync")
+		return
+	}
+	c.spy()
+	c.cnt["fault.partition_leader_failovers"]++
+	c.concurrentSubs(0, 1)
+}
+
+// rejoin restarts the servers that are down; the former leader becomes a follower.
+func (c *c17Run) rejoin() {
+	h := c.h
+	t := c.tgts[0]
+	for _, x := range h.nodes {
+		if x.up {
+			continue
+		}
+		if err := h.startNode(x.idx); err != nil {
+			if len(h.s.Panics) == 0 {
+				h.oc.Trouble = "restart: " + err.Error()
+			}
+			return
+		}
+		x := x
+		if h.pollFor("rejoin", 40*time.Second, func() bool {
+			p, lp := x.srv.metadata.GetPartition(t.stream, t.part), c.partition(t)
+			return p != nil && lp != nil && p.isFollowing && lp.inISR(x.id)
+		}) {
+			c.cnt["fault.former_leader_rejoined_as_follower"]++
+		} else {
+			c.cnt["probe.restarted_server_not_in_sync"]++
+		}
+	}
+}
+
+// publish: one value of the requested size plus A[2] companions published at the same time, so that
+// several messages are sealed for one batch; then each is read back.
+func (c *c17Run) publish(op hx.Op) {
+	h, n := c.h, c.n
+	r := simrt.NewRand(uint64(op.Arg(1, 1)))
+	route, kind := op.Arg(3, c17Publish), op.Arg(4, c17Text)
+	ti := int(op.Arg(5, 0)) % len(c.tgts)
+	t := c.tgts[ti]
+	policy := client.AckPolicy_LEADER
+	if op.Arg(6, 0) == 1 {
+		policy = client.AckPolicy_ALL
+		c.cnt["probe.published_with_ack_policy_all"]++
+	}
+	var batch []*c17Pub
+	for k := 0; k <= int(op.Arg(2, 0)); k++ {
+		size := int(op.Arg(0, 0))
+		if k > 0 {
+			size = []int{0, 16, 40, 300, 1500}[r.Intn(5)]
+		}
+		val, needles := c17Value(r, size, kind, route == c17RawNATS)
+		c.seq++
+		batch = append(batch, &c17Pub{tgt: ti, off: -1, val: val, needles: needles, key: c.cur, cid: fmt.Sprintf("c%d", c.seq)})
+		if size >= 65536 {
+			c.cnt["probe.values_of_64KiB_or_more"]++
+		}
+		switch kind {
+		case c17Random:
+			c.cnt["probe.values_of_arbitrary_bytes"]++
+		case c17Zeros, c17Ones:
+			c.cnt["probe.values_of_one_repeated_byte_00_or_ff"]++
+		}
+	}
+	p := c.partition(t)
+	if p == nil {
+		h.oc.Trouble = "no partition " + t.String()
+		return
+	}
+	before := p.log.NewestOffset()
+	c.dirty = true
+	switch route {
+	case c17Async:
+		var reqs []*client.PublishRequest
+		for _, b := range batch {
+			reqs = append(reqs, &client.PublishRequest{Stream: t.stream, Partition: t.part, Value: b.val, AckPolicy: policy, CorrelationId: b.cid})
+		}
+		ctx, cancel := ctxT(10 * time.Second)
+		ps := &pubStream{ctx: ctx, sim: h.s, in: reqs}
+		done := false
+		var serr error
+		api := n.srv.api
+		h.s.GoNode(n.node, "rpc:publishasync", func() { serr = api.PublishAsync(ps); done = true })
+		h.waitFor("async-acks", 8*time.Second, func() bool { return len(ps.out) >= len(reqs) || done })
+		ps.done = true
+		h.waitFor("async-end", 8*time.Second, func() bool { return done })
+		cancel()
+		for _, b := range batch {
+			b.err = fmt.Errorf("no ack (session error: %v)", serr)
+			for _, resp := range ps.out {
+				if resp.CorrelationId != b.cid {
+					continue
+				}
+				if resp.AsyncError != nil {
+					b.err = fmt.Errorf("async error %v: %s", resp.AsyncError.Code, resp.AsyncError.Message)
+				} else if resp.Ack != nil {
+					b.off, b.err = resp.Ack.Offset, nil
+				}
+			}
+		}
+		c.cnt["probe.published_through_publishasync"] += len(batch)
+	case c17RawNATS:
+		if c.foreign == nil {
+			h.do(900, "foreign-connect", func() { c.foreign, _ = nats.Connect("sim") })
+			if c.foreign == nil {
+				h.oc.Trouble = "foreign NATS client could not connect"
+				return
+			}
+		}
+		h.do(900, "foreign-publish", func() {
+			for _, b := range batch {
+				c.foreign.Publish(t.subject(), b.val)
+			}
+		})
+		want := before + int64(len(batch))
+		if !h.pollFor("raw-stored", 5*time.Second, func() bool {
+			p := c.partition(t)
+			return p != nil && p.log.NewestOffset() >= want
+		}) {
+			h.oc.Trouble = fmt.Sprintf("%d bare NATS messages on %s: the log of %s did not grow to offset %d within 5 s", len(batch), t.subject(), t, want)
+			return
+		}
+		c.cnt["probe.published_as_bare_nats_message"] += len(batch)
+	default:
+		pending := len(batch)
+		for k, b := range batch {
+			b := b
+			h.s.GoNode(400+k, "publisher", func() {
+				defer func() { pending-- }()
+				var resp *client.PublishResponse
+				h.rpc(n, "publish", func(api *apiServer) {
+					ctx, cancel := ctxT(5 * time.Second)
+					defer cancel()
+					resp, b.err = api.Publish(ctx, &client.PublishRequest{Stream: t.stream, Partition: t.part, Value: b.val, AckPolicy: policy})
+				})
+				if b.err == nil && resp != nil && resp.Ack != nil {
+					b.off = resp.Ack.Offset
+				} else if b.err == nil {
+					b.err = fmt.Errorf("no ack")
+				}
+			})
+		}
+		simrt.WaitUntil("publishers", func() bool { return pending == 0 })
+	}
+	if c.verbose {
+		for _, b := range batch {
+			h.s.Logf("  published %d bytes to %s (route %d) -> offset %d err=%v", len(b.val), t, route, b.off, b.err)
+		}
+	}
+	for _, b := range batch {
+		if b.err != nil {
+			h.oc.Trouble = fmt.Sprintf("publish: %v", b.err)
+			return
+		}
+	}
+	// what a subscriber gets is exactly what was published
+	if route == c17RawNATS {
+		// no acks: the new offsets are read in one go and matched against the batch (as a multiset)
+		st, ended := c.read(t, before+1, before+int64(len(batch)))
+		h.oc.Checks++
+		matched := 0
+		for _, m := range st.msgs {
+			for _, b := range batch {
+				if b.off < 0 && bytes.Equal(m.Value, b.val) {
+					b.off = m.Offset
+					matched++
+					break
+				}
+			}
+		}
+		if !ended || len(st.msgs) != len(batch) || matched != len(batch) {
+			h.fail("C17/roundtrip", "C17/roundtrip/bare-nats-message", "%d bare NATS messages were published on %s (stored at offsets %d..%d); a subscriber received %d messages of which %d are among the published values (first: %s; ended=%v err=%v)",
+				len(batch), t.subject(), before+1, before+int64(len(batch)), len(st.msgs), matched, c17Got(st), st.ended, st.err)
+			return
+		}
+	} else {
+		for _, b := range batch {
+			st, ended := c.read(t, b.off, b.off)
+			h.oc.Checks++
+			if !ended || len(st.msgs) != 1 || !bytes.Equal(st.msgs[0].Value, b.val) {
+				h.fail("C17/roundtrip", "C17/roundtrip", "published %d bytes at offset %d of %s (one of %d concurrent publishes, route %d), a subscriber received %s (ended=%v err=%v)", len(b.val), b.off, t, len(batch), route, c17Got(st), st.ended, st.err)
+				return
+			}
+		}
+	}
+	for _, b := range batch {
+		c.pubs = append(c.pubs, b)
+		c.cnt["probe.values_published_and_read_back"]++
+	}
+	if ti > 0 {
+		c.cnt["probe.values_in_second_partition_or_stream"] += len(batch)
+	}
+}
+
+// expected returns the values of one partition in offset order.
+func (c *c17Run) expected(ti int) []*c17Pub {
+	var exp []*c17Pub
+	for _, p := range c.pubs {
+		if p.tgt == ti {
+			exp = append(exp, p)
+		}
+	}
+	sort.Slice(exp, func(i, j int) bool { return exp[i].off < exp[j].off })
+	return exp
+}
+
+// concurrentSubs runs k subscriptions from the earliest to the latest offset of a partition at the
+// same time and compares what each received only after all of them ended (so a value that is
+// overwritten by a later read of the same or another subscription is seen).
+func (c *c17Run) concurrentSubs(ti, k int) {
+	h := c.h
+	ti %= len(c.tgts)
+	t := c.tgts[ti]
+	exp := c.expected(ti)
+	if len(exp) == 0 {
+		return
+	}
+	c.waitCommitted(t, exp[len(exp)-1].off)
+	ctx, cancel := ctxT(20 * time.Second)
+	defer cancel()
+	var subs []*subStream
+	for i := 0; i < k; i++ {
+		subs = append(subs, h.subscribe(c.n, ctx, &client.SubscribeRequest{Stream: t.stream, Partition: t.part, StartPosition: client.StartPosition_EARLIEST, StopPosition: client.StopPosition_STOP_LATEST}))
+	}
+	allEnded := h.waitFor("subs", 15*time.Second, func() bool {
+		for _, st := range subs {
+			if !st.ended {
+				return false
+			}
+		}
+		return true
+	})
+	// the readable prefix: everything before the first value sealed under the other master key
+	good := 0
+	for good < len(exp) && exp[good].key == c.cur {
+		good++
+	}
+	if k > 1 {
+		c.cnt["probe.concurrent_subscriptions"] += k
+	}
+	c.cnt["probe.values_compared_after_all_subscriptions_ended"] += k * good
+	for si, st := range subs {
+		h.oc.Checks++
+		for i, m := range st.msgs {
+			if i >= good {
+				h.fail("C17/wrong-key", "C17/wrong-key/data", "subscription %d of %d over %s: offset %d was sealed under another master key but the subscriber received %d bytes (%q…) instead of an error", si+1, k, t, m.Offset, len(m.Value), trunc(m.Value, 24))
+				return
+			}
+			if m.Offset != exp[i].off || !bytes.Equal(m.Value, exp[i].val) {
+				h.fail("C17/roundtrip", "C17/roundtrip/whole-partition", "subscription %d of %d (earliest to latest) over %s: message %d has offset %d and %d bytes (%q…), published at offset %d were %d bytes (%q…) — compared after all subscriptions ended",
+					si+1, k, t, i, m.Offset, len(m.Value), trunc(m.Value, 24), exp[i].off, len(exp[i].val), trunc(exp[i].val, 24))
+				return
+			}
+		}
+		if !allEnded && !st.ended {
+			h.fail("C17/roundtrip", "C17/roundtrip/whole-partition-never-ended", "subscription %d of %d (earliest to latest) over %s delivered %d of %d messages and did not end within 15 s", si+1, k, t, len(st.msgs), good)
+			return
+		}
+		if len(st.msgs) < good {
+			h.fail("C17/roundtrip", "C17/roundtrip/whole-partition", "subscription %d of %d (earliest to latest) over %s ended after %d of %d messages (err=%v)", si+1, k, t, len(st.msgs), good, st.err)
+			return
+		}
+		if good < len(exp) && st.err == nil {
+			h.fail("C17/wrong-key", "C17/wrong-key/no-error", "subscription %d of %d over %s: offset %d was sealed under another master key; the subscription ended without an error", si+1, k, t, exp[good].off)
+			return
+		}
+	}
+}
+
+// pause pauses a stream and wakes every partition of it up again with a publish: the partition is
+// replaced, with a new handler and a new data key.
+func (c *c17Run) pause(op hx.Op) {
+	h, n := c.h, c.n
+	t := c.tgts[int(op.Arg(0, 0))%len(c.tgts)]
+	var err error
+	h.rpc(n, "pause", func(api *apiServer) {
+		ctx, cancel := ctxT(5 * time.Second)
+		defer cancel()
+		_, err = api.PauseStream(ctx, &client.PauseStreamRequest{Name: t.stream, ResumeAll: op.Arg(1, 0) == 1})
+	})
+	if err != nil {
+		h.oc.Trouble = "pause: " + err.Error()
+		return
+	}
+	c.cnt["fault.pauses"]++
+	seed := op.Arg(2, 1)
+	for ti, x := range c.tgts {
+		if x.stream != t.stream {
+			continue
+		}
+		// (a publish through the API resumes the partition it goes to)
+		c.publish(hx.Op{K: "pub", A: []int64{24, seed + int64(ti), 0, c17Publish, c17Text, int64(ti), 0}})
+		if h.stop || h.oc.Trouble != "" {
+			return
+		}
+	}
+	c.spy()
+	// old and new values, sealed under different data keys, are returned
+	for ti, x := range c.tgts {
+		if x.stream == t.stream {
+			c.concurrentSubs(ti, 1)
+		}
+	}
+}
+
+// scan: nothing stored may contain the plaintext of a published value.
+func (c *c17Run) scan(final bool) {
+	h := c.h
+	if h.stop || (!c.dirty && !final) || len(c.pubs) == 0 {
+		return
+	}
+	c.dirty = false
+	if !final {
+		simrt.Sleep(50 * time.Millisecond)
+	}
+	h.oc.Checks++
+	type place struct {
+		t   c17Target
+		dir string
+	}
+	var places []place
+	for _, t := range c.tgts {
+		if len(h.nodes) == 1 {
+			places = append(places, place{t, c.partDir(t)})
+			continue
+		}
+		for _, x := range h.nodes { // every server's copy (a server that is no replica has none)
+			places = append(places, place{t, filepath.Join(x.dir, "streams", t.stream, fmt.Sprint(t.part))})
+		}
+	}
+	for _, pl := range places {
+		t := pl.t
+		files, _ := filepath.Glob(filepath.Join(pl.dir, "*.log"))
+		if len(files) == 0 && (len(h.nodes) == 1 || pl.dir == c.partDir(t)) {
+			h.oc.Trouble = "no segment files under " + pl.dir
+			return
+		}
+		if len(h.nodes) > 1 && final {
+			c.cnt["probe.server_copies_scanned_at_end_of_run"]++
+		}
+		for _, f := range files {
+			data, _ := os.ReadFile(f)
+			for _, p := range c.pubs {
+				for _, nd := range p.needles {
+					if bytes.Contains(data, nd) {
+						when := "before the first fault"
+						if final {
+							when = "at the end of the run"
+						}
+						h.fail("C17/plaintext", "C17/plaintext-on-disk", "%s: segment file %s of %s contains %d bytes of the plaintext published at offset %d of %s (%q…)", when, strings.TrimPrefix(f, h.dir+"/"), t, len(nd), p.off, c.tgts[p.tgt], trunc(nd, 16))
+						return
+					}
+				}
+			}
+			// (bookkeeping for the counters: which wrapped data keys occur)
+			if final {
+				for _, p := range c.pubs {
+					if c.tgts[p.tgt] != t {
+						continue
+					}
+					if vs, ve, _, _, ok := valueSpan(data, p.off); ok && ve > vs && ve-vs > int(data[vs]) {
+						c.deks[string(data[vs+1:vs+1+int(data[vs])])] = true
+					}
+				}
+			}
+		}
+	}
+	if final {
+		c.cnt["probe.plaintext_scans_at_end_of_run"]++
+	}
+}
+
+// wrongKey restarts the server with the other master key: every value stored so far under the first
+// one must now yield an error (and those stored under the key that comes back are returned again).
+func (c *c17Run) wrongKey() {
+	h := c.h
+	h.stopNode(0)
+	c.setKey(1 - c.cur)
+	if err := h.startNode(0); err != nil {
+		h.oc.Trouble = "restart: " + err.Error()
+		return
+	}
+	if h.waitController(60*time.Second) == nil {
+		h.oc.Trouble = "no controller after restart"
+		return
+	}
+	h.pollFor("partition", 10*time.Second, func() bool {
+		for _, t := range c.tgts {
+			if p := c.partition(t); p == nil || !p.IsLeader() {
+				return false
+			}
+		}
+		return true
+	})
+	c.spy()
+	c.cnt["fault.restarts_under_other_master_key"]++
+	for _, p := range c.pubs {
+		t := c.tgts[p.tgt]
+		st, ended := c.read(t, p.off, p.off)
+		h.oc.Checks++
+		if p.key == c.cur {
+			// sealed under the key that is in force again
+			if !ended || len(st.msgs) != 1 || !bytes.Equal(st.msgs[0].Value, p.val) {
+				h.fail("C17/roundtrip", "C17/roundtrip/key-came-back", "offset %d of %s was sealed under the master key that is in force again; a subscriber received %s (ended=%v err=%v)", p.off, t, c17Got(st), st.ended, st.err)
+			}
+			continue
+		}
+		c.cnt["fault.reads_under_wrong_master_key"]++
+		if len(st.msgs) > 0 {
+			h.fail("C17/wrong-key", "C17/wrong-key/data", "offset %d of %s was sealed under another master key (%s) but a subscriber received %d bytes (%q…) instead of an error", p.off, t, c.keyRelation(), len(st.msgs[0].Value), trunc(st.msgs[0].Value, 24))
+		} else if !ended || st.err == nil {
+			h.fail("C17/wrong-key", "C17/wrong-key/no-error", "offset %d of %s was sealed under another master key (%s); the subscription neither delivered nor failed (ended=%v err=%v)", p.off, t, c.keyRelation(), st.ended, st.err)
+		}
+		if h.stop {
+			break
+		}
+	}
+}
+
+func (c *c17Run) keyRelation() string {
+	same := 0
+	for i := range c.keys[0] {
+		if c.keys[0][i] == c.keys[1][i] {
+			same++
+		}
+	}
+	return fmt.Sprintf("%d-byte keys that agree in %d bytes", len(c.keys[0]), same)
+}
+
+// tamper flips single bytes of one stored value: every byte of the header (key size, wrapped data
+// key, nonce) and of the authentication tag, and a sample of the ciphertext bytes.
+func (c *c17Run) tamper(op hx.Op) {
+	h, n := c.h, c.n
+	var cands []*c17Pub
+	for _, p := range c.pubs {
+		if p.key == c.cur {
+			cands = append(cands, p)
+		}
+	}
+	if len(cands) == 0 {
+		return
+	}
+	target := cands[int(op.Arg(0, 0))%len(cands)]
+	t := c.tgts[target.tgt]
+	r := simrt.NewRand(uint64(op.Arg(2, 1)))
+	maskMode := op.Arg(1, 0) % 4
+	files, _ := filepath.Glob(filepath.Join(c.partDir(t), "*.log"))
+	done := false
+	for _, f := range files {
+		data, err := os.ReadFile(f)
+		if err != nil {
+			continue
+		}
+		vs, ve, ms, me, ok := valueSpan(data, target.off)
+		if !ok {
+			continue
+		}
+		done = true
+		size := ve - vs
+		var positions []int
+		if size <= c17Header+c17Tag+16 {
+			for i := 0; i < size; i++ {
+				positions = append(positions, i)
+			}
+		} else {
+			for i := 0; i < c17Header; i++ {
+				positions = append(positions, i)
+			}
+			// ciphertext: its first and last byte and a sample in between
+			body := size - c17Header - c17Tag
+			sample := map[int]bool{0: true, body - 1: true}
+			for i := 0; i < 6; i++ {
+				sample[r.Intn(body)] = true
+			}
+			for i := 0; i < body; i++ {
+				if sample[i] {
+					positions = append(positions, c17Header+i)
+				}
+			}
+			for i := size - c17Tag; i < size; i++ {
+				positions = append(positions, i)
+			}
+			c.cnt["probe.tampered_values_with_sampled_ciphertext_positions"]++
+		}
+		fh, err := os.OpenFile(f, os.O_RDWR, 0)
+		if err != nil {
+			h.oc.Trouble = err.Error()
+			return
+		}
+		for _, rel := range positions {
+			if h.stop {
+				break
+			}
+			mask := []byte{0x01, 0x80, 0xff, 0}[maskMode]
+			if maskMode == 3 {
+				mask = byte(1 + r.Intn(255))
+			}
+			pos := vs + rel
+			rec := append([]byte{}, data[ms:me]...)
+			rec[pos-ms] ^= mask
+			binary.BigEndian.PutUint32(rec, crc32.Checksum(rec[4:], castagnoliC17))
+			fh.WriteAt(rec, int64(ms))
+			st, ended := c.read(t, target.off, target.off)
+			h.oc.Checks++
+			c.cnt["fault.stored_byte_flips"]++
+			switch {
+			case rel < c17Header:
+				c.cnt["fault.stored_byte_flips_in_header"]++
+			case rel >= size-c17Tag:
+				c.cnt["fault.stored_byte_flips_in_tag"]++
+			}
+			if len(h.s.Panics) > 0 || !n.up || h.s.Crashed(n.node) {
+				h.fail("C17/tamper", "C17/tamper/crash", "byte %d of the %d-byte stored value at offset %d of %s was changed (mask %#x) and the server crashed: %s", rel, size, target.off, t, mask, firstPanic(h))
+				break
+			}
+			if len(st.msgs) > 0 {
+				sig := "C17/tamper/data"
+				if bytes.Equal(st.msgs[0].Value, target.val) {
+					sig = "C17/tamper/undetected"
+				}
+				h.fail("C17/tamper", sig, "byte %d of the %d-byte stored value at offset %d of %s was changed (mask %#x) and a subscriber received %d bytes instead of an error", rel, size, target.off, t, mask, len(st.msgs[0].Value))
+			} else if !ended || st.err == nil {
+				h.fail("C17/tamper", "C17/tamper/no-error", "byte %d of the stored value at offset %d of %s was changed; the subscription neither delivered nor failed (ended=%v)", rel, target.off, t, st.ended)
+			}
+			fh.WriteAt(data[ms:me], int64(ms)) // restore
+		}
+		fh.Close()
+	}
+	if !done {
+		h.oc.Trouble = fmt.Sprintf("record %d of %s not found in the segment files", target.off, t)
+	}
+}
+
+// handlerProbe calls the partition's handler directly on the stored form of one value, on every
+// prefix of it (a sample for long values) and on the stored form followed by further bytes: the
+// handler answers with an error or with exactly the published value, and never panics.
+func (c *c17Run) handlerProbe(op hx.Op) {
+	h, n := c.h, c.n
+	if len(c.pubs) == 0 {
+		return
+	}
+	target := c.pubs[int(op.Arg(0, 0))%len(c.pubs)]
+	t := c.tgts[target.tgt]
+	p := c.partition(t)
+	if p == nil || p.encryptionHandler == nil {
+		h.oc.Trouble = "partition " + t.String() + " has no encryption handler"
+		return
+	}
+	var sealed []byte
+	found := false
+	files, _ := filepath.Glob(filepath.Join(c.partDir(t), "*.log"))
+	for _, f := range files {
+		data, err := os.ReadFile(f)
+		if err != nil {
+			continue
+		}
+		if vs, ve, _, _, ok := valueSpan(data, target.off); ok {
+			sealed, found = append([]byte(nil), data[vs:ve]...), true
+		}
+	}
+	if !found {
+		h.oc.Trouble = fmt.Sprintf("record %d of %s not found in the segment files", target.off, t)
+		return
+	}
+	r := simrt.NewRand(uint64(op.Arg(1, 1)))
+	L := len(sealed)
+	var cuts []int
+	if L <= 200 {
+		for k := 0; k < L; k++ {
+			cuts = append(cuts, k)
+		}
+	} else {
+		for k := 0; k < 100; k++ {
+			cuts = append(cuts, k)
+		}
+		for i := 0; i < 40; i++ {
+			cuts = append(cuts, 100+r.Intn(L-120))
+		}
+		for k := L - 20; k < L; k++ {
+			cuts = append(cuts, k)
+		}
+	}
+	type input struct {
+		what string
+		b    []byte
+	}
+	var inputs []input
+	for _, k := range cuts {
+		inputs = append(inputs, input{fmt.Sprintf("its first %d bytes", k), append([]byte(nil), sealed[:k]...)})
+	}
+	for _, e := range []int{1, 2, 16, 17} {
+		x := append([]byte(nil), sealed...)
+		for i := 0; i < e; i++ {
+			x = append(x, byte(r.Intn(256)))
+		}
+		inputs = append(inputs, input{fmt.Sprintf("the stored value followed by %d more bytes", e), x})
+	}
+	inputs = append(inputs, input{"the stored value twice", append(append([]byte(nil), sealed...), sealed...)})
+	codec := p.encryptionHandler
+	var failure [3]string
+	at := ""
+	h.do(n.node, "handler-read", func() {
+		defer func() {
+			if rec := recover(); rec != nil {
+				failure = [3]string{"C17/handler", "C17/handler/panic", fmt.Sprintf("Read of %s of the %d-byte stored value at offset %d of %s panicked: %v", at, L, target.off, t, rec)}
+			}
+		}()
+		// the stored form itself
+		at = "all"
+		out, err := codec.Read(append([]byte(nil), sealed...))
+		switch {
+		case target.key == c.cur && (err != nil || !bytes.Equal(out, target.val)):
+			failure = [3]string{"C17/handler", "C17/handler/roundtrip", fmt.Sprintf("Read of the %d-byte stored value at offset %d of %s returned %d bytes (%q…) err=%v; published were %d bytes", L, target.off, t, len(out), trunc(out, 24), err, len(target.val))}
+			return
+		case target.key != c.cur && err == nil:
+			failure = [3]string{"C17/wrong-key", "C17/handler/wrong-key-data", fmt.Sprintf("Read of the stored value at offset %d of %s, sealed under another master key, returned %d bytes without an error", target.off, t, len(out))}
+			return
+		}
+		for _, in := range inputs {
+			at = in.what
+			out, err := codec.Read(in.b)
+			c.cnt["probe.handler_reads_of_prefixes_and_extensions"]++
+			if err == nil && (target.key != c.cur || !bytes.Equal(out, target.val)) {
+				failure = [3]string{"C17/handler", "C17/handler/data", fmt.Sprintf("Read of %s of the %d-byte stored value at offset %d of %s returned %d bytes (%q…) without an error; published were %d bytes (%q…)", in.what, L, target.off, t, len(out), trunc(out, 24), len(target.val), trunc(target.val, 24))}
+				return
+			}
+		}
+	})
+	h.oc.Checks++
+	if failure[0] != "" {
+		h.fail(failure[0], failure[1], "%s", failure[2])
+	}
 }
 
 func firstPanic(h *h3) string {
